@@ -264,4 +264,39 @@ Section KS.
   Proof using Hf Hn0 Hn8.
     intros. destruct (external_product_spec res a g) as (A & D); auto. apply aligned_suffices; auto.
   Qed.
+  (* ---------------------------------------------------------------------------------------------- *)
+  (* matrix forms: the same operation on every (row, col), each time on the whole scratch *)
+  Lemma loop_scoped_spec (b : Z) (k : nat) (t : tree) : aligned_tree t -> demand t <= b ->
+    aligned_tree (Seq (Need b) (Loop k (Scoped t))) /\ demand (Seq (Need b) (Loop k (Scoped t))) <= b.
+  Proof using Hf Hn0 Hn8.
+    intros At Dt. pose proof (aligned_need_nonneg _ At). split.
+    - cbn [aligned_tree]. split; [lia | exact At].
+    - cbn [demand persist]. destruct k; lia.
+  Qed.
+
+  Lemma suffices_gglwe_keyswitch (res a key : infos) :
+    wf_infos res -> wf_infos a -> wf_infos key -> i_n a = n -> i_rank a = i_rank_in key ->
+    run_takes (tree_gglwe_keyswitch fam n res a key) (0, gglwe_keyswitch_tmp_bytes fam n res a key) <> None.
+  Proof using Hf Hn0 Hn8.
+    intros. destruct (keyswitch_spec res a key) as (A & D & _); auto.
+    destruct (loop_scoped_spec (glwe_keyswitch_tmp_bytes fam n res a key) (nat_of (i_dnum res * i_rank_in res)) _ A D) as [A' D'].
+    apply aligned_suffices; auto.
+  Qed.
+  Lemma suffices_gglwe_external_product (res a g : infos) :
+    wf_infos res -> wf_infos a -> wf_infos g -> i_n a = n ->
+    run_takes (tree_gglwe_external_product fam n res a g) (0, gglwe_external_product_tmp_bytes fam n res a g) <> None.
+  Proof using Hf Hn0 Hn8.
+    intros. destruct (external_product_spec res a g) as (A & D); auto.
+    destruct (loop_scoped_spec (glwe_external_product_tmp_bytes fam n res a g) (nat_of (i_dnum res * i_rank_in res)) _ A D) as [A' D'].
+    apply aligned_suffices; auto.
+  Qed.
+  Lemma suffices_ggsw_external_product (res a g : infos) :
+    wf_infos res -> wf_infos a -> wf_infos g -> i_n a = n ->
+    run_takes (tree_ggsw_external_product fam n res a g) (0, ggsw_external_product_tmp_bytes fam n res a g) <> None.
+  Proof using Hf Hn0 Hn8.
+    intros. destruct (external_product_spec res a g) as (A & D); auto.
+    destruct (loop_scoped_spec (glwe_external_product_tmp_bytes fam n res a g)
+                (nat_of (Z.min (i_dnum res) (i_dnum a) * (i_rank res + 1))) _ A D) as [A' D'].
+    apply aligned_suffices; auto.
+  Qed.
 End KS.
